@@ -86,6 +86,9 @@ type signerSpec struct {
 	blob     []byte   // key blob on the wire
 	refAlgos []string // reference: algorithms the client may assume
 	certObj  *ssh.Certificate
+
+	otherSame []byte // blob of another key of the same format
+	otherType []byte // blob of another format (certificates: the bare key of the certificate)
 }
 
 var sessionID []byte
